@@ -154,3 +154,79 @@ func c12StaleScenario(t *testing.T) {
 		t.Fatalf("metadata names tier %s but the file is not there (inHot=%v inCold=%v)", meta.Tier, inHot, inCold)
 	}
 }
+
+// Two attempts for the same file overlap (scheduled cycle and manual trigger are not
+// serialised): attempt B runs from start to finish while attempt A is between its copy and
+// its metadata update, and A's update then fails (metadata store briefly unavailable). A's
+// rollback must not delete the cold copy B has committed - the hot copy is already gone.
+func TestC12OverlappingAttemptRollbackKeepsCommittedCopy(t *testing.T) {
+	ctx := context.Background()
+	logger := zerolog.Nop()
+	tmp := t.TempDir()
+	hotLocal, err := storage.NewLocalBackend(filepath.Join(tmp, "hot"), logger)
+	if err != nil {
+		t.Fatal(err)
+	}
+	coldLocal, err := storage.NewLocalBackend(filepath.Join(tmp, "cold"), logger)
+	if err != nil {
+		t.Fatal(err)
+	}
+	db, err := sql.Open("sqlite3", filepath.Join(tmp, "tiering.db"))
+	if err != nil {
+		t.Fatal(err)
+	}
+	defer db.Close()
+	cfg := &config.TieredStorageConfig{Enabled: true, MigrationSchedule: "0 2 * * *", MigrationMaxConcurrent: 1, MigrationBatchSize: 10,
+		DefaultHotMaxAgeDays: 7, Cold: config.ColdTierConfig{Enabled: true, Backend: "local"}}
+	metadata, err := NewMetadataStore(db, logger)
+	if err != nil {
+		t.Fatal(err)
+	}
+	policies, err := NewPolicyStore(db, cfg, logger)
+	if err != nil {
+		t.Fatal(err)
+	}
+	cold := &c12AfterWrite{Backend: coldLocal}
+	m := &Manager{hotBackend: hotLocal, coldBackend: cold, metadata: metadata, policies: policies, config: cfg, logger: logger, stopCh: make(chan struct{})}
+	m.migrator = NewMigrator(&MigratorConfig{Manager: m, MaxConcurrent: 1, BatchSize: 10, Logger: logger})
+	const path = "testdb/cpu/2025/01/01/00/cpu_20250101_daily.parquet"
+	want := bytes.Repeat([]byte{'x'}, 4096)
+	if err := hotLocal.Write(ctx, path, want); err != nil {
+		t.Fatal(err)
+	}
+	if err := m.RecordNewFile(ctx, &FileMetadata{Path: path, Database: "testdb", Measurement: "cpu",
+		PartitionTime: time.Now().UTC().AddDate(0, 0, -30), SizeBytes: int64(len(want))}); err != nil {
+		t.Fatal(err)
+	}
+	cands, _ := m.migrator.FindCandidates(ctx, TierHot, TierCold)
+	if len(cands) != 1 {
+		t.Fatalf("candidates: %d", len(cands))
+	}
+	renamed := false
+	cold.hook = func(n int) {
+		if n == 1 {
+			// attempt A has just finished its copy: attempt B runs to completion now
+			if err := m.migrator.MigrateFile(ctx, cands[0]); err != nil {
+				t.Fatalf("attempt B: %v", err)
+			}
+			// ... and the metadata store is unavailable when A gets to its update
+			if _, err := db.Exec(`ALTER TABLE tier_files RENAME TO tier_files_away`); err != nil {
+				t.Fatalf("rename: %v", err)
+			}
+			renamed = true
+		}
+	}
+	errA := m.migrator.MigrateFile(ctx, cands[0])
+	t.Logf("attempt A: %v", errA)
+	if renamed {
+		if _, err := db.Exec(`ALTER TABLE tier_files_away RENAME TO tier_files`); err != nil {
+			t.Fatal(err)
+		}
+	}
+	m.migrator.ReconcileOrphanedFiles(ctx)
+	hotData, hotErr := hotLocal.Read(ctx, path)
+	coldData, coldErr := coldLocal.Read(ctx, path)
+	if !(hotErr == nil && bytes.Equal(hotData, want)) && !(coldErr == nil && bytes.Equal(coldData, want)) {
+		t.Fatalf("the file is readable from NO tier (hot err=%v, cold err=%v)", hotErr, coldErr)
+	}
+}
